@@ -1,6 +1,6 @@
 (** C09 -- Wire format of protocol version 3 is stable and version-negotiated.
     Only statements, [exact] proofs and assumption printing live here. *)
-From Remoc Require Import Lib.Base Gen.Consts Chmux.Wire Chmux.Spec3 Chmux.WireProofs.
+From Remoc Require Import Lib.Base Gen.Consts Chmux.Wire Chmux.Spec3 Chmux.WireProofs Chmux.Mux Chmux.MuxIds.
 
 (** The constants read off the Rust source on this run are those of the version-3 table. *)
 Theorem C09_codes_match :
@@ -74,9 +74,27 @@ Proof. exact deframe_too_long. Qed.
 Theorem C09_fixed_msg_length : forall m bs, fixed_size m = true -> enc m = Some bs -> len bs <= MAX_MSG_LENGTH.
 Proof. exact fixed_msg_length. Qed.
 
+(** Every message a peer may send (port batches limited to chunk_size / 4 ports, with or without ids), the
+    hello message and every payload frame fit the frame length the endpoint accepts on a stream transport. *)
+Theorem C09_frames_fit : forall chunk L m bs,
+  max_frame_length chunk = Some L -> admissible chunk m = true -> enc m = Some bs -> u32 (len bs) = true ->
+  len bs <= L /\ chunk <= L.
+Proof. exact frames_fit. Qed.
+
 (** The handshake is [Reset] then [Hello] announcing version 3 in the version-3 layout. *)
 Theorem C09_handshake : forall c, exact_cfg c = true -> handshake c = map Some (Spec3.handshake3 c).
 Proof. exact handshake_layout. Qed.
+
+(** Version negotiation in the dispatcher: whatever local event it handles, in whatever state, an open request or
+    port batch it emits carries ids exactly when the peer announced a version that knows them
+    ([PROTOCOL_VERSION_PORT_ID <= remote version]); handling a received message emits nothing. *)
+Theorem C09_ids_follow_peer_version : forall m e w pl,
+  In (Emit w pl) (effs_of (handle_event m e)) -> id_capable w = true ->
+  has_ids w = (PROTOCOL_VERSION_PORT_ID <=? remote_ver m).
+Proof. exact event_ids. Qed.
+Theorem C09_received_emits_nothing : forall m msg paylen w pl,
+  ~ In (Emit w pl) (effs_of (handle_received m msg paylen)).
+Proof. exact received_no_emit. Qed.
 
 (** Non-vacuity: concrete messages meet the hypotheses. *)
 Example C09_nonvacuous :
@@ -101,3 +119,6 @@ Print Assumptions C09_deframe_frame.
 Print Assumptions C09_deframe_too_long.
 Print Assumptions C09_fixed_msg_length.
 Print Assumptions C09_handshake.
+Print Assumptions C09_frames_fit.
+Print Assumptions C09_ids_follow_peer_version.
+Print Assumptions C09_received_emits_nothing.
